@@ -55,6 +55,15 @@ fn enforce_constraints_fd<U: User, E: Engine<U>>(x: LTerm<U, E>) -> Goal<U, E> {
             state.verify_all_bound();
             let bound_x = state.dstore_ref().keys().cloned().collect::<LTerm<U, E>>();
             proto_vulcan!( onceo { force_ans(bound_x) } ).solve(engine, state)
+        },
+        fngoal | _engine,
+        state | {
+            // A constraint whose operands were bound while it was running has not been
+            // re-checked since; check the remaining constraints against the final bindings.
+            match state.run_constraints() {
+                Ok(state) => Stream::unit(Box::new(state)),
+                Err(_) => Stream::empty(),
+            }
         }
     ])
 }
